@@ -6,3 +6,162 @@ carrier = Contract(name="C09-bounded", qual=None, kind="function", props=["C09",
                    stated=["decided by the bounded stand-in bounded.c09 only"])
 carrier.extra_checks = [bounded_check("bounded.c09", "overlap-add-stft-symrun", ["C09"]),
                         bounded_check("bounded.c02", "laziness-of-stages-without-a-discharged-contract", ["C02"])]
+
+
+# ---------------------------------------------------------------------------
+# Deductive part: the overlap-add main loop of overlap_add.list (no window, no normalisation: the paths before the loop are
+# skipped by the mode's arguments; windows / normalisation / size detection stay in the bounded stand-in).
+#   blocks: BLK(k, i) = item i of block k, BLEN(k) = its length;  BASE(k) = k*hop (defined by BASE(0) = 0, BASE(k+1) = BASE(k) + hop);
+#   SP(k, n) = sum over the first k blocks of their item at position n - BASE(j) (0 outside a block):
+#              SP(0, n) = 0,  SP(k+1, n) = SP(k, n) + BX(k, n - BASE(k))
+# Statement: output n == SP(m, n) for the m blocks given, m*hop + size - hop outputs, ValueError for a block of another length.
+import ast as _ast
+import z3
+from pyvc.contract import Loop, Yield, Comp, Lemma
+from pyvc.sym import Int, Real, Iter, Const, Ref, UFn, SpecLambda, INT, REAL, Unsupported, PyRaise
+from pyvc import sym as _sym, library as _lib
+
+_BLK = z3.Function("BLK", INT, INT, REAL)
+_BLEN = z3.Function("BLEN", INT, INT)
+_BASE = z3.Function("BASE", INT, INT)
+_SP = z3.Function("SP", INT, INT, REAL)
+
+
+def _blocks_param(m, name):
+    """an iterator of blocks: element k is (a handle of) block number k, an iterator over BLK(k, 0 .. BLEN(k))"""
+    it = m.new_iter(Int, name)
+    m.heap[(it.id, "elem_map")] = lambda m_, val, it=it: ("block", z3.simplify(m_.heap[(it.id, "pos")] - 1))
+    m.heap[(it.id, "used")] = z3.K(INT, z3.IntVal(0))        # items already taken from each block (a block is consumed inside its own iteration only)
+    m.ghost_blocks = it
+    k = z3.Int("k!blen")
+    m.assume(z3.ForAll([k], _BLEN(k) >= 0))
+    return it
+
+
+def _xmap(m, args, kwargs):
+    f = args[0]
+    if isinstance(f, _sym.Builtin) and f.name == "iter" and len(args) == 2:
+        return args[1]                  # iter(block) is the block's own iterator: the handle stands for it
+    if isinstance(f, _sym.Builtin) and f.name == "operator.add" and len(args) == 3 and isinstance(args[2], tuple) and args[2][0] == "block":
+        a = args[1]
+        if isinstance(a, Ref) and a.kind == "list":
+            return ("lazy-add", a, args[2][1])
+    raise Unsupported("xmap call shape")
+
+
+_xmap._pyvc_callee = True
+
+
+def _list_mul(m, op, a, b):
+    """[x] * n"""
+    if isinstance(op, _ast.Mult) and isinstance(a, Ref) and a.kind == "list" and _sym.is_z3(b) and b.sort() == INT:
+        n0 = z3.simplify(m.heap[(a.id, "len")])
+        if z3.is_int_value(n0) and n0.as_long() == 1:
+            v = m.heap[(a.id, "arr")][0]
+            new = m.fresh("listmul", z3.ArraySort(INT, REAL))
+            i = z3.Int("i!lm%d" % m.counter)
+            m.counter += 1
+            m.assume(z3.ForAll([i], new[i] == z3.simplify(v), patterns=[new[i]]))
+            return m.new_list(a.elem, arr=new, length=z3.If(b > 0, b, 0))
+    return NotImplemented
+
+
+def _slice(m, base, lo, hi):
+    if not (isinstance(base, Ref) and base.kind == "list"):
+        return NotImplemented
+    n, arr = m.heap[(base.id, "len")], m.heap[(base.id, "arr")]
+    lo = z3.IntVal(0) if lo is None else _sym.to_z3num(lo)
+    hi = n if hi is None else _sym.to_z3num(hi)
+    if m.branch(z3.Or(lo < 0, hi < 0)):
+        raise Unsupported("negative slice bounds")
+    lo2 = z3.If(lo < n, lo, n)
+    hi2 = z3.If(hi < n, hi, n)
+    i = z3.Int("i!sl%d" % m.counter)
+    m.counter += 1
+    new = m.fresh("slicecopy", z3.ArraySort(INT, REAL))
+    m.assume(z3.ForAll([i], new[i] == arr[i + lo2], patterns=[new[i]]))
+    return m.new_list(base.elem, arr=new, length=z3.simplify(z3.If(hi2 - lo2 > 0, hi2 - lo2, 0)))
+
+
+def _setslice(m, base, sl, v):
+    if not (isinstance(base, Ref) and base.kind == "list") or sl.step is not None:
+        raise Unsupported("slice assignment shape")
+    n, arr = m.heap[(base.id, "len")], m.heap[(base.id, "arr")]
+    lo = z3.IntVal(0) if sl.lower is None else _sym.to_z3num(m.eval(sl.lower))
+    hi = n if sl.upper is None else _sym.to_z3num(m.eval(sl.upper))
+    if m.branch(z3.Or(lo < 0, hi < 0)):
+        raise Unsupported("negative slice bounds")
+    src = m.ghost_blocks
+    used = m.heap[(src.id, "used")]
+    if isinstance(v, tuple) and v[0] == "lazy-add":
+        _, a, k = v
+        alen, aarr = m.heap[(a.id, "len")], m.heap[(a.id, "arr")]
+        left = _BLEN(k) - used[k]
+        cnt = z3.If(alen < left, alen, left)          # map stops with the shorter operand; the list operand is pulled first
+        u0 = used[k]
+        val = lambda j: aarr[j] + _BLK(k, u0 + j)
+    elif isinstance(v, tuple) and v[0] == "block":
+        k = v[1]
+        cnt = _BLEN(k) - used[k]
+        u0 = used[k]
+        val = lambda j: _BLK(k, u0 + j)
+    else:
+        raise Unsupported("slice assignment from %r" % (v,))
+    m.assume(cnt >= 0)
+    m.heap[(src.id, "used")] = z3.Store(used, k, u0 + cnt)
+    lo2 = z3.If(lo < n, lo, n)
+    hi2 = z3.If(hi < n, hi, n)
+    hi2 = z3.If(hi2 < lo2, lo2, hi2)
+    i = z3.Int("i!ss%d" % m.counter)
+    m.counter += 1
+    new = m.fresh("sliceassigned", z3.ArraySort(INT, REAL))
+    m.assume(z3.ForAll([i], new[i] == z3.If(i < lo2, arr[i], z3.If(i < lo2 + cnt, val(i - lo2), arr[i - cnt + hi2])), patterns=[new[i]]))
+    m.heap[(base.id, "arr")] = new
+    m.heap[(base.id, "len")] = z3.simplify(n - (hi2 - lo2) + cnt)
+
+
+_OLA_ENV = {"BLK": UFn(_BLK, 2), "BLEN": UFn(_BLEN, 1), "BASE": UFn(_BASE, 1), "SP": UFn(_SP, 2),
+            "BX": SpecLambda("lambda k, i: ite(0 <= i and i < size, BLK(k, i), 0)")}
+_OLA_AX = [("def:BASE", "BASE(0) == 0 and forall(lambda k: implies(k >= 0, BASE(k + 1) == BASE(k) + hop))"),
+           ("def:SP(0,n)", "forall(lambda n: SP(0, n) == 0)"),
+           ("def:SP(k+1,n)", "forall(lambda k: forall(lambda n: implies(k >= 0, SP(k + 1, n) == SP(k, n) + BX(k, n - BASE(k)))))")]
+_P1 = "pos(blk_sig)"
+ola = Contract(
+    name="overlap_add.list", qual="audiolazy/lazy_analysis.py::overlap_add#2", kind="generator", props=["C09", "C02"],
+    modes={"no-window,no-normalisation": Mode(
+        params=dict(blk_sig=_blocks_param, size=Int, hop=Int, wnd=Const(None), normalize=Const(False)),
+        requires=["size >= 1", "hop >= 1", "hop <= size"],
+        ensures=[("S:m*hop+size-hop-outputs", "implies(finite(blk_sig), nout == BASE(length(blk_sig)) + size - hop)"),
+                 ("S:every-output-is-the-overlap-add-sum", "forall(lambda n: implies(0 <= n and n < nout, out[n] == SP(length(blk_sig), n)))")],
+        raises={"ValueError": "pos(blk_sig) >= 1 and BLEN(pos(blk_sig) - 1) != size"})},
+    axioms=_OLA_AX,
+    lemmas=[Lemma("C:nothing-beyond-the-last-block", "k", "forall(lambda n: implies(n >= BASE(k) - hop + size, SP(k, n) == 0))")],
+    out_elem=Real,
+    loops={
+        3: Loop(inv=[("C:blocks-so-far-have-the-declared-size", "forall(lambda k: implies(0 <= k and k < %s, BLEN(k) == size))" % _P1),
+                     ("C:memory-is-the-running-window", "length(mem) == size and forall(lambda i: implies(0 <= i and i < size, arr(mem)[i] == SP(%s, BASE(%s) - hop + i)))" % (_P1, _P1)),
+                     ("S:outputs-so-far", "nout == BASE(%s) and forall(lambda n: implies(0 <= n and n < nout, out[n] == SP(%s, n)))" % (_P1, _P1)),
+                     ("C:locals", "s_h == size - hop")]),
+        4: Loop(inv=[("C:blocks-so-far-have-the-declared-size", "%s >= 1 and forall(lambda k: implies(0 <= k and k < %s, BLEN(k) == size))" % (_P1, _P1)),
+                     ("C:memory-is-the-new-window", "length(mem) == size and forall(lambda i: implies(0 <= i and i < size, arr(mem)[i] == SP(%s, BASE(%s - 1) + i)))" % (_P1, _P1)),
+                     ("C:copy", "length(_it4) == hop and forall(lambda i: implies(0 <= i and i < hop, arr(_it4)[i] == arr(mem)[i]))"),
+                     ("S:outputs-so-far", "nout == BASE(%s - 1) + pos(_it4) and forall(lambda n: implies(0 <= n and n < nout, out[n] == SP(%s, n)))" % (_P1, _P1)),
+                     ("C:locals", "s_h == size - hop")]),
+        5: Loop(inv=[("C:all-blocks-read", "finite(blk_sig) and %s == length(blk_sig)" % _P1),
+                     ("C:copy", "length(_it5) == size - hop and forall(lambda i: implies(0 <= i and i < size - hop, arr(_it5)[i] == SP(%s, BASE(%s) + i)))" % (_P1, _P1)),
+                     ("S:outputs-so-far", "nout == BASE(%s) + pos(_it5) and forall(lambda n: implies(0 <= n and n < nout, out[n] == SP(%s, n)))" % (_P1, _P1))]),
+    },
+    yields={1: Yield(post=[("S:output-n-is-the-overlap-add-sum-of-the-blocks-read-so-far", "result == SP(%s, k)" % _P1),
+                           ("C02:one-block-read-per-hop-outputs", "BASE(%s - 1) <= k and k < BASE(%s)" % (_P1, _P1))]),
+            2: Yield(post=[("S:tail-output-n-is-the-overlap-add-sum", "result == SP(%s, k)" % _P1)])},
+    spec_env=_OLA_ENV, globs={"xmap": _xmap, "Stream": None, "Iterable": "Iterable"}, default_elem=Real,
+    replay="oracles.bounded_adapter:c09",
+    stated=["overlap_add.list without window and normalisation: output n is the sum over the blocks of their item at n - k*hop, exactly m*hop + size - hop outputs, "
+            "one block read per hop outputs, ValueError for a block whose length is not the declared size"])
+ola.binop_hook = _list_mul
+ola.slice_hook = _slice
+ola.setslice_hook = _setslice
+ola.frozen = ["mem"]
+ola.assumptions = ["blocks are iterators over BLK(k, .) of length BLEN(k), each consumed only inside its own iteration; map(add, list, block) stops with the shorter operand (list operand pulled first)",
+                   "list slicing / slice assignment follow CPython for non-negative bounds (library model in contracts/c09.py)",
+                   "BASE(k) = k*hop and SP are specification functions defined by the listed recurrences; rely: nobody else modifies the local list mem"]
